@@ -11,7 +11,8 @@ From Coq Require Import String.
 (* Python/numpy type of the value that reaches the chain (after as_str_if_uuid / KEY_MAP[enum.name]) *)
 Inductive vtag := TBool | TNpBool | TNpInt8 | TNpInt | TInt | TFloat | TNpFloat | TStr | TOther.
 
-Record sval := { s_tag : vtag; s_int : Z; s_frac : bool (* a float with a fractional part: s_int is its floor *) ; s_txt : N }.
+Record sval := { s_tag : vtag; s_int : Z; s_frac : bool (* a float with a fractional part: s_int is its floor *) ; s_txt : N;
+                 s_nul : bool (* a text with an embedded NUL character: h5py refuses it *) }.
 
 (* HDF5 type of a stored attribute *)
 Inductive htype := HInt8 | HInt64 | HFloat64 | HStr | HNative.
@@ -27,7 +28,9 @@ Inductive action :=
 | ACreateInt8        (* attrs.create(key, int(value), dtype="int8") *)
 | ACreateStr         (* attrs.create(key, value, dtype=str_type) *)
 | ACreateNative      (* attrs.create(key, value, dtype=np.asarray(value).dtype) *)
-| AModify            (* attrs.modify(key, value): keeps the HDF5 type the attribute was first stored with *)
+| AModify            (* attrs.modify(key, value): keeps the HDF5 type the attribute was first stored with.  NOT in today's
+                        source: AModify and GExists exist so that the table can express such a change of the chain (a seeded
+                        mutant did exactly this) and [table_ok] then fails, instead of the extractor having to refuse *)
 | ABadAction.
 
 Definition tag_eqb (a b : vtag) : bool :=
@@ -108,7 +111,8 @@ Definition wf (v : sval) : Prop :=
   match s_tag v with
   | TBool | TNpBool => (s_int v = 0 \/ s_int v = 1)%Z /\ s_frac v = false
   | TNpInt8 => (-128 <= s_int v < 128)%Z /\ s_frac v = false
-  | TNpInt | TInt => s_frac v = false
+  | TNpInt | TInt => (- 2 ^ 63 <= s_int v < 2 ^ 63)%Z /\ s_frac v = false   (* beyond int64 np.asarray gives an object array: TypeError *)
+  | TStr => s_nul v = false                                                  (* h5py: "VLEN strings do not support embedded NULLs" *)
   | TOther => False
   | _ => True
   end.
